@@ -96,6 +96,14 @@ def hooks():
                 stem, ext = base.rsplit(".", 1)
                 return _some(CW.const(ext if nm.endswith("extension") else stem))
             return NONE if nm.endswith("extension") else _some(CW.const(base))
+        if re.search(r"<impl str>::parse$|str::FromStr>?::from_str$", nm) and re.search(r"usize|u64|u32|i64|i32|u16|u8", (t.get("dest_ty") or "") + " " + " ".join(t.get("targs") or [])):
+            if re.fullmatch(r"\+?\d+", s):
+                return CW.adt("std::result::Result", "Ok", 0, [("0", CW.const(int(s)))])
+            return CW.adt("std::result::Result", "Err", 1, [("0", CW.sym("ParseIntError"))])
+        if re.search(r"<impl str>::(trim_start|trim_end)$", nm):
+            return CW.const(s.lstrip() if nm.endswith("start") else s.rstrip())
+        if re.search(r"<impl str>::chars$", nm):
+            return LM.itr(tuple(CW.const(ord(c)) for c in s))
         if re.search(r"cmp::PartialEq.*>::(eq|ne)$", nm):
             o = _s(a1)
             if o is not None:
